@@ -10,10 +10,10 @@ LEAN_MODULES = ['YatimlModel.Props.C17']
 THEOREMS = ['YatimlModel.C17.' + t for t in [
     'C17_errAt_one_position', 'C17_scalar_mismatch_cites_node', 'C17_missing_key_named',
     'C17_unknown_key_named', 'C17_wrong_attribute_type_cites_value', 'C17_construct_errors_positioned', 'C17_recognition_failure_positioned',
-    'C17_unrecognised_node_error_positioned']]
+    'C17_unrecognised_node_error_positioned', 'C17_repeated_key_cites_mapping', 'C17_repeated_key_inner_kept']]
 RULE = ('hierarchy-free generated class models x valid documents rendered in block style x single-point '
-        'corruptions (wrong scalar type, misspelt key, dropped required key, added key, unknown enum '
-        'member); the real RecognitionError message is parsed: it must cite a position on the line of the '
+        'corruptions (wrong scalar type, misspelt key, dropped required key, added key, a key repeated, '
+        'also in nested mappings (directed grid), unknown enum member); the real RecognitionError message is parsed: it must cite a position on the line of the '
         'corrupted node, of its key, or of the start of the enclosing mapping, and name an unknown or '
         'missing key; for arbitrary models every RecognitionError must cite at least one position and '
         'only positions inside the document.  Model and real cited position sets are compared on every '
@@ -144,7 +144,7 @@ def corrupt(rng, spec, doc, t):
     ps = G.all_paths(doc)
     maps = [p for p in class_map_paths(spec, doc, t) if G.get_at_path(doc, p)[1]]
     scal = [p for p in ps if G.get_at_path(doc, p)[0] == 's' and not is_key_path(doc, p)]
-    kind = rng.choice(['scalar', 'scalar', 'misspell', 'drop', 'add', 'enum'])
+    kind = rng.choice(['scalar', 'scalar', 'misspell', 'drop', 'add', 'enum', 'dup'])
     if kind == 'scalar' and scal:
         p = rng.choice(scal)
         old = G.get_at_path(doc, p)
@@ -171,6 +171,20 @@ def corrupt(rng, spec, doc, t):
             return G.replace_at(doc, p, lambda d: ('m', pairs, m[2])), ('drop', None, p), (k[1] if k[0] == 's' else None)
         pairs.insert(i, (G.S('bogus_key'), G.S('1')))
         return G.replace_at(doc, p, lambda d: ('m', pairs, m[2])), ('add', p + (i, 0), p), 'bogus_key'
+    if kind == 'dup' and maps:
+        # a key turned into a second occurrence of a sibling key
+        p = rng.choice(maps)
+        m = G.get_at_path(doc, p)
+        pairs = list(m[1])
+        strs = [j for j, (k, _) in enumerate(pairs) if k[0] == 's' and k[1]]
+        if len(strs) < 2:
+            return None
+        i, j = rng.sample(strs, 2)
+        if pairs[i][0][1] == pairs[j][0][1]:
+            return None
+        name = pairs[j][0][1]
+        pairs[i] = (G.S(name), pairs[i][1])
+        return G.replace_at(doc, p, lambda d: ('m', pairs, m[2])), ('dup', p + (i, 0), p), name
     if kind == 'enum':
         members = set()
         for c in spec:
@@ -257,6 +271,53 @@ def directed_one_or_many(ctx):
             yield c
 
 
+def directed_nested_duplicates(ctx):
+    """a fixed grid: a key of a class mapping that is NOT the root (an item of a list, an attribute value, a
+    dict value, two levels down) turned into a second occurrence of a sibling key"""
+    yaml, yatiml = L.setup()
+    rng = ctx.rng
+    S = G.S
+    P = lambda nm, t, **kw: dict(name=nm, type=t, **kw)   # noqa: E731
+    ip = [P('name', ('str',)), P('age', ('int',)), P('nick', ('str',), default='x')]
+    inner = dict(name='Inner', bases=[], registered=True, kind='plain', params=ip, all_params=ip,
+                 extra=False, abstract=None, define_init=True)
+    hp = [P('title', ('str',)), P('staff', ('seq', 'list', ('cls', 'Inner'))), P('boss', ('cls', 'Inner')),
+          P('byname', ('map', 'dict', ('str',), ('cls', 'Inner')))]
+    holder = dict(name='Holder', bases=[], registered=True, kind='plain', params=hp, all_params=hp,
+                  extra=False, abstract=None, define_init=True)
+    tp = [P('label', ('str',)), P('holders', ('seq', 'list', ('cls', 'Holder')))]
+    top = dict(name='Top', bases=[], registered=True, kind='plain', params=tp, all_params=tp,
+               extra=False, abstract=None, define_init=True)
+
+    def person(n, a):
+        return ('m', [(S('name'), S(n)), (S('age'), S(str(a))), (S('nick'), S('n' + n))], None)
+    hdoc = ('m', [(S('title'), S('t')), (S('staff'), ('q', [person('a', 1), person('b', 2)], None)),
+                  (S('boss'), person('c', 3)),
+                  (S('byname'), ('m', [(S('k1'), person('d', 4)), (S('k2'), person('e', 5))], None))], None)
+    tdoc = ('m', [(S('label'), S('l')), (S('holders'), ('q', [hdoc, hdoc], None))], None)
+    inner_paths = [(1, 1, 0), (1, 1, 1), (2, 1), (3, 1, 0, 1), (3, 1, 1, 1)]
+    grid = [(('cls', 'Holder'), hdoc, inner_paths),
+            (('cls', 'Top'), tdoc, [(1, 1, 1) + q for q in inner_paths] + [(1, 1, 1)])]
+    for t, doc, paths in grid:
+        for mp in paths:
+            m = G.get_at_path(doc, mp)
+            for i, j in ((1, 0), (2, 1), (0, 2)):
+                if max(i, j) >= len(m[1]):
+                    continue
+                try:
+                    c = L.build_case(rng, yaml, yatiml, [inner, holder, top], t, doc, ('directed-nested-duplicate',))
+                    L.run_case(c, yaml)
+                except Exception as e:  # noqa
+                    ctx.count('gen_error:' + type(e).__name__)
+                    continue
+                pairs = list(m[1])
+                name = pairs[j][0][1]
+                pairs[i] = (S(name), pairs[i][1])
+                c.forced = (G.replace_at(doc, mp, lambda d: ('m', pairs, m[2])), ('dup', mp + (i, 0), mp), name)
+                ctx.count('directed_nested_duplicates')
+                yield c
+
+
 def explore(ctx):
     yaml, yatiml = L.setup()
     rng = ctx.rng
@@ -285,7 +346,7 @@ def explore(ctx):
     # strong claim: hierarchy-free models, block style, one corruption
     n = 0
     for c in itertools.chain(LC.gen_cases(ctx, ctx.budget(500, 10000), mutate_p=0.0, model_filter=hierarchy_free,
-                                          alias_p=0), directed_one_or_many(ctx)):
+                                          alias_p=0), directed_one_or_many(ctx), directed_nested_duplicates(ctx)):
         if c.doc is None or c.real_out[0] != 'ok':
             if getattr(c, 'forced', None):
                 ctx.count('directed_base_not_ok')
